@@ -452,6 +452,10 @@ def determineTypeName : Nat → Schema → GenM (String × Bool)
       -- the loop keeps the LAST non-null index; isPtr iff some entry is "null"
       let isPtr := a == "null" || b == "null"
       let idx := if b != "null" then 1 else if a != "null" then 0 else 0
+      -- (fix R19) two types of which neither is "null" are a choice between types, like a longer list
+      if !isPtr then
+        warn "Property has multiple types; will be represented as interface{} with no validation"
+        return ("null", false)
       return (if idx == 1 then b else a, isPtr)
     | _ =>
       warn "Property has multiple types; will be represented as interface{} with no validation"
